@@ -859,10 +859,24 @@ class Engine:
                 self.stats["auto_lemma"] += 1
         return out or None
 
+    # result of an I/O call: -1 <= result <= length argument (man pages)
+    RESULT_LE_ARG = {"send": 2, "recv": 2, "read": 2, "write": 2, "SSL_read": 2, "SSL_write": 2, "sendto": 2, "recvfrom": 2}
+
     def post_call_facts(self, fb, F, nid):
         n = fb.fn.nodes[nid]
         f = self.post.get(n.get("callee"))
-        return f(fb, F, nid) if f else F
+        if f:
+            return f(fb, F, nid)
+        ai = self.RESULT_LE_ARG.get(n.get("callee"))
+        if ai is not None and ai < len(n["args"]):
+            t = fb.term(nid)
+            a = fb.lin(n["args"][ai])
+            F = F.copy()
+            fb.add_le(F, lin_const(-1), lin_term(t))
+            if a is not None:
+                fb.add_le(F, lin_term(t), a)
+            return F
+        return F
 
     # --- mod sets (which fields / pointee types a function may store to) ----
     def _direct_mod(self, f):
